@@ -49,6 +49,9 @@ class C09Observer(SP.Observer):
         self.exhausted = False
 
     def after_event(self, m, where):
+        from cassandra import OperationTimedOut
+        from cassandra.cluster import NoHostAvailable
+        from cassandra.connection import ConnectionException
         ctx = self.ctx
         # --- server view: a stream id is never shared by two unanswered requests, never beyond the maximum
         for s in m.sreqs[self.seen:]:
@@ -88,6 +91,10 @@ class C09Observer(SP.Observer):
                         ctx.fail(["C09.delivery.crossed", "future"],
                                  "%s: the future of request tag=%s delivered the row of tag=%s" % (where, f.tag, k))
             for e in f.pair.eb:
+                # only errors the server sent for one request; a connection error quotes whatever killed the
+                # connection (possibly the protocol error sent on another request's stream)
+                if isinstance(e, (ConnectionException, NoHostAvailable, OperationTimedOut)):
+                    continue
                 got = _tag_in_text(str(e))
                 if got is not None and got != f.tag:
                     ctx.fail(["C09.delivery.crossed", "future-error"],
